@@ -213,6 +213,57 @@ CONTENTS = [('ascii', b'FOO-MIB DEFINITIONS ::= BEGIN END\n'), ('utf8', 'caf\u00
             ('latin1', 'caf\xe9'.encode('latin-1'))]
 
 
+class Decoys(object):
+    name = 'directory-decoys'
+    describe = ('a DIRECTORY named like a variant of the requested module (as given, lower case, suffix removed, with extension) at the '
+                'top of the served directory, with the real file inside it / in another sub-directory / at the top / nowhere: the '
+                'file is returned (or not-found when there is none); a directory is never taken for the module')
+
+    def blocks(self, tier):
+        return [{'r': r} for r in ('FOO-MIB', 'Foo-Mib')]
+
+    def cases(self, block, tier):
+        r = block['r']
+        decoys = [r, r.lower(), r.upper(), r[:r.lower().find('-mib')], r[:r.lower().find('-mib')].lower(), r + '.txt', r.lower() + '.mib']
+        for d in sorted(set(decoys)):
+            for where in ('inside', 'sibling-dir', 'top', 'nowhere'):
+                for fname in (r + '.txt', r.lower() + '.my'):
+                    yield {'r': r, 'decoy': d, 'where': where, 'fname': fname}
+
+    def run_case(self, case):
+        from pysmi.reader.localfile import FileReader
+        root = scratch()
+        try:
+            os.mkdir(os.path.join(root, case['decoy']))
+            data = b'the real module text'
+            if case['where'] == 'inside':
+                p = os.path.join(root, case['decoy'], case['fname'])
+            elif case['where'] == 'sibling-dir':
+                os.mkdir(os.path.join(root, 'zz-other'))
+                p = os.path.join(root, 'zz-other', case['fname'])
+            elif case['where'] == 'top':
+                p = os.path.join(root, case['fname'])
+            else:
+                p = None
+            if p and not os.path.isdir(p):
+                with open(p, 'wb') as f:
+                    f.write(data)
+                os.utime(p, (MTIME, MTIME))
+            elif p:
+                p = None
+            got = ask(FileReader(root), case['r'])
+            vs = []
+            if p:
+                if got[:3] != ('found', data.decode(), MTIME):
+                    vs.append(('C14|decoy|%s|file-not-returned|%s' % (case['where'], got[0] if got[0] != 'error' else 'error:' + got[1]),
+                               'case %r -> %r' % (case, got)))
+            elif got[0] != 'not-found':
+                vs.append(('C14|decoy|nowhere|%s' % (got[0] if got[0] != 'error' else 'error:' + got[1]), 'case %r -> %r' % (case, got)))
+            return got[0], vs, 1
+        finally:
+            shutil.rmtree(root, ignore_errors=True)
+
+
 class Contents(object):
     name = 'contents'
     describe = ('byte contents (ASCII, UTF-8, invalid UTF-8, CRLF, empty, Latin-1) and a file longer than maxMibSize, in a directory '
@@ -482,4 +533,4 @@ class Urls(object):
         return 'ftp', vs, 1
 
 
-FAMILIES = [Names(), Contents(), ZipShapes(), Urls()]
+FAMILIES = [Names(), Decoys(), Contents(), ZipShapes(), Urls()]
